@@ -12,6 +12,7 @@ import SyslModel.DbScript.Proto
 import SyslModel.Ints.Proto
 import SyslModel.SeqDiag.Proto
 import SyslModel.Relmod.Proto
+import SyslModel.Eval.Proto
 
 open Lean (Json)
 open SyslModel
@@ -24,6 +25,7 @@ def dispatch (op : String) (j : Json) : Option Json :=
   else if op.startsWith "ints." then Ints.handle op j
   else if op.startsWith "sd." then SeqDiag.handle op j
   else if op.startsWith "relmod." then Relmod.handle op j
+  else if op.startsWith "eval." then Eval.handle op j
   else none
 
 def handleLine (line : String) : String :=
